@@ -120,7 +120,7 @@ pub fn run(run: &Run) {
     run.set_rule(
         "Generator: (a) all labels of length <= L (L=3 quick, 4 thorough) over a 30-character alphabet (letters of 1-4 bytes, all contextual code points \
          with the neighbours their rules look at, disallowed/unassigned/compat characters) for IdentifierClass and FreeformClass; (b) proptest labels \
-         (length 0..=10) with a class-directed mix (every derived-property value, contextual code points with satisfied / unsatisfied / off-the-end \
+         (length 0..=10, one in six behind/in front of a pad of 7..257 valid 1-4-byte characters) with a class-directed mix (every derived-property value, contextual code points with satisfied / unsatisfied / off-the-end \
          contexts) for both standard classes; (c) generated user classes: a proptest assignment of the 7 derived-property values to up to 24 \
          characters (letters plus the real contextual code points) with a generated default, and labels over that alphabet. Oracle: reference scan in \
          code-point order (classification = the class's own get_value_from_char, context truth = RFC 5892 reference rules, registry = RFC list): the \
@@ -167,11 +167,44 @@ pub fn run(run: &Run) {
     });
     let mk = || {
         let ch = prop_oneof![30 => gens::pick_classed(&pools().by_id), 30 => gens::pick(&pools().ctx), 20 => gens::pick(&pools().id_valid), 10 => gens::pick(&pools().general), 10 => gens::gchar()];
-        (vec(ch, 0..=10), any::<bool>())
+        (gens::padded(vec(ch, 0..=10).prop_map(gens::s_of).boxed()), any::<bool>())
     };
-    run.prop("random_standard", run.pick(2_000_000, 40_000_000), mk, |(cs, ff), l| {
-        let s: String = cs.iter().collect();
-        check(if *ff { &Class::Ff } else { &Class::Id }, &s, l)
+    run.prop("random_standard", run.pick(2_000_000, 40_000_000), mk, |(s, ff), l| check(if *ff { &Class::Ff } else { &Class::Id }, s, l));
+    super::pipe::stress(run, "alignment_and_runs", &["l\u{b7}l", "l\u{b7}", "\u{94d}\u{200d}", "a\u{200d}", "\u{626}\u{200c}\u{626}", "\u{375}\u{3b1}", "\u{5d0}\u{5f3}", "\u{30fb}\u{3042}", "\u{660}", "\u{660}\u{6f0}", "\u{6f0}\u{660}", "\u{6f0}x\u{660}", "\u{2126}", "\u{378}"], &|s, l| {
+        for c in [Class::Id, Class::Ff] {
+            if let Err(v) = check(&c, s, l) {
+                run.violate(v);
+                return false;
+            }
+        }
+        true
+    });
+    // ZWNJ between transparent runs of every length 0..=40 on both sides
+    run.par("zwnj_long_runs", true, |tid, n, l| {
+        let mut idx = 0usize;
+        for nb in 0..=40usize {
+            for na in 0..=40usize {
+                for (left, right) in [('\u{626}', '\u{626}'), ('\u{628}', '\u{627}'), ('a', '\u{626}'), ('\u{626}', 'a'), ('\u{94d}', 'a')] {
+                    idx += 1;
+                    if idx % n != tid {
+                        continue;
+                    }
+                    let mut s = String::new();
+                    s.push(left);
+                    s.extend(std::iter::repeat('\u{650}').take(nb));
+                    s.push('\u{200c}');
+                    s.extend(std::iter::repeat('\u{64e}').take(na));
+                    s.push(right);
+                    l.cases += 1;
+                    for c in [Class::Id, Class::Ff] {
+                        if let Err(v) = check(&c, &s, l) {
+                            run.violate(v);
+                            return;
+                        }
+                    }
+                }
+            }
+        }
     });
     let mk_user = || {
         let alphabet: Vec<char> = "abcdelxyz".chars().chain([0xb7u32, 0x200c, 0x200d, 0x375, 0x5f3, 0x5f4, 0x30fb, 0x660, 0x6f0, 0x94d, 0x3b1, 0x5d0, 0x626, 0x627, 0x3042].iter().map(|c| char::from_u32(*c).unwrap())).collect();
